@@ -62,3 +62,12 @@ Proof.
   intros ops H. unfold join_ordered. eapply Forall_impl; [|exact H].
   intros o Ho. destruct o; simpl in *; auto; contradiction.
 Qed.
+
+Theorem join_zero_joins_inert_ordered : forall v np ops c, Forall no_join_op ops -> jreach v np ops c ->
+  (forall k, p_next (getp c k) = None /\ p_joined (getp c k) = CNil /\ p_mu (getp c k) = None) /\
+  (forall t th, nth_error (jthreads c) t = Some th -> jjoin_pc (j_pc th) = false) /\
+  join_ordered ops.
+Proof.
+  intros v np ops c Hn Hr. destruct (join_zero_joins_inert v np ops c Hn Hr) as [A B].
+  split; [exact A|]. split; [exact B|exact (no_join_ordered ops Hn)].
+Qed.
